@@ -63,7 +63,7 @@ pub fn run() -> i32 {
     let mut r = Report::new("C09");
     r.viol_cap = 20000;
     let thorough = r.thorough();
-    r.rule = "(i) every feature bundle the word parser accepts for base phone + <= k diacritics (k = 1 quick, 2 thorough) plus every bundle obtained from those with <= k-1... (quick: from the bases) by one feature or place-node change; (ii) every ordered pair of base phones (quick: a 70-phone subset incl. every multi-character base) inside one syllable and across a boundary; (iii) every word of <= n segments over {p, a, t͡s, ŋʘ} x length 1..3 x stress x tone {0,5,51,1234} in every syllabification; (iv) every state of the C08 BFS. Oracle: if render(w) has no �, parse(render(w)) == w structurally and run([], [render(w)]) == [render(w)]. Non-trivial = renderable and distinct rendering.".into();
+    r.rule = "(i) every feature bundle the word parser accepts for base phone + <= k diacritics (k = 1 quick, 2 thorough) plus every bundle obtained from those with <= k-1... (quick: from the bases) by one feature or place-node change; (ii) every ordered pair of base phones (quick: a 70-phone subset incl. every multi-character base) inside one syllable and across a boundary; (iii) every word of <= n segments over {p, ã, t͡s, ŋʘ} x length 1..3 x stress x tone {0,5,51,1234} in every syllabification; (iv) every state of the C08 BFS. Oracle: if render(w) has no �, parse(render(w)) == w structurally and run([], [render(w)]) == [render(w)]. Non-trivial = renderable and distinct rendering.".into();
     // (i)
     let k = if thorough { 2 } else { 1 };
     let parsed = parsed_universe(k);
@@ -93,7 +93,8 @@ pub fn run() -> i32 {
     }, |a| t2.merge(a));
     r.boxes.push(json!({"box": "(ii) ordered pairs of base phones, tautosyllabic and across a boundary", "phones": subset.len(), "words": t2.evals, "round_trip_ok": t2.ok, "unrenderable": t2.unrenderable, "failures": t2.viols.len()}));
     // (iii)
-    let inv: Vec<SegBits> = ["p", "a", "t͡s", "ŋʘ"].iter().map(|t| seg(t)).collect();
+    // one plain stop, one vowel carrying a diacritic (length marks after diacritics), an affricate with a tie, a click digraph
+    let inv: Vec<SegBits> = ["p", "ã", "t͡s", "ŋʘ"].iter().map(|t| seg(t)).collect();
     let n = if thorough { 4 } else { 3 };
     let mut shapes: Vec<CW> = vec![];
     for w in word_space(&inv, n) {
@@ -121,7 +122,7 @@ pub fn run() -> i32 {
     }
     let mut t3 = Acc::default();
     par_fold(shapes.len(), 512, Acc::default, |i, a| check(&shapes[i], format!("shape|{}", show_cw(&shapes[i])), a), |a| t3.merge(a));
-    r.boxes.push(json!({"box": format!("(iii) word shapes <= {} segments over {{p,a,t͡s,ŋʘ}} x length x stress x tone x boundaries", n), "words": shapes.len(), "round_trip_ok": t3.ok, "unrenderable": t3.unrenderable, "failures": t3.viols.len()}));
+    r.boxes.push(json!({"box": format!("(iii) word shapes <= {} segments over {{p,ã,t͡s,ŋʘ}} x length x stress x tone x boundaries", n), "words": shapes.len(), "round_trip_ok": t3.ok, "unrenderable": t3.unrenderable, "failures": t3.viols.len()}));
     // (iv) BFS states
     let seeds = super::c08::seeds();
     let actions: Vec<Vec<String>> = super::c08::RULES.iter().map(|s| vec![s.to_string()]).collect();
